@@ -1381,23 +1381,22 @@ class ReadParquetFSSpec(ReadParquet):
         """Return known partition lengths using parquet statistics"""
         if not self.filters:
             self._update_length_statistics()
-            return tuple(
-                length
-                for i, length in enumerate(self._pq_length_stats)
-                if not self._filtered or i in self._partitions
-            )
+            return self._pq_length_stats
         return None
 
     def _update_length_statistics(self):
-        """Ensure that partition-length statistics are up to date"""
+        """Ensure that partition-length statistics are up to date
+
+        ``_pq_length_stats`` holds the lengths of the selected partitions
+        (in the order of ``_partitions``)
+        """
 
         if not self._pq_length_stats:
             if self._plan["statistics"]:
                 # Already have statistics from original API call
+                statistics = self._plan["statistics"]
                 self._pq_length_stats = tuple(
-                    stat["num-rows"]
-                    for i, stat in enumerate(self._plan["statistics"])
-                    if not self._filtered or i in self._partitions
+                    statistics[i]["num-rows"] for i in self._partitions
                 )
             else:
                 # Need to go back and collect statistics
@@ -1634,11 +1633,7 @@ def _collect_pq_statistics(
 
     # Collect statistics using layer information
     fs = expr._io_func.fs
-    parts = [
-        part
-        for i, part in enumerate(expr._plan["parts"])
-        if not expr._filtered or i in expr._partitions
-    ]
+    parts = [expr._plan["parts"][i] for i in expr._partitions]
 
     # Execute with delayed for large and remote datasets
     parallel = int(False if _is_local_fs(fs) else 16)
